@@ -5,110 +5,186 @@ import SciVerif.Lemmas.C15
 Frame invariant.  While the lines of an item sequence written at indent `k` are processed,
 the part `B` of the stack of open branches and the part `P` of the hierarchy that lie below
 indent `k` never change; whatever deeper lines left on top of them is removed by the next
-line at indent `k` (`closeGE k s.state = B`, `popGE k s.parents = P`).  The nodes of the
-sequence take effect iff `falseCase B = false`, i.e. iff every enclosing clause is selected. -/
+line at indent `k` (`closeGE k s.state = B`, `popGE k s.parents = P`).  The lines of the
+sequence take effect iff `falseCase B = false`, i.e. iff every enclosing clause is selected.
+A block written in compact form (`pfx.@case`) is told apart from a neighbouring block by its
+path `fullName P ++ nms pfx`. -/
 namespace SciVerif.C15
 
-def Item.isBlock : Item → Bool
-  | .block .. => true
-  | _ => false
+theorem nms_inj {a b : List String} (h : nms a = nms b) : a = b := by
+  induction a generalizing b with
+  | nil => cases b <;> simp_all [nms]
+  | cons x xs ih =>
+    cases b with
+    | nil => simp [nms] at h
+    | cons y ys =>
+      simp only [nms, List.map_cons, List.cons.injEq, Comp.nm.injEq] at h
+      rw [h.1, ih (b := ys) (by simpa [nms] using h.2)]
 
-theorem Items.startsCase_cons (i : Item) (r : Items) : (Items.cons i r).startsCase = i.isBlock := by
-  cases i <;> rfl
+theorem path_ne {P : List (Nat × List Comp)} {a b : List String} (h : a ≠ b) :
+    fullName P ++ nms a ≠ fullName P ++ nms b :=
+  fun e => h (nms_inj (List.append_cancel_left e))
+
+/-- A block of this indent but another path is open: it is closed, the clause opens a new one. -/
+theorem closeFor_other {k : Nat} {path : List Comp} {st B : List Branch} {blk : Branch}
+    (h : closeGE (k + 1) st = blk :: B) (hi : blk.cur.indent = k) (hp : blk.cur.path ≠ path)
+    (hb : Below k B) : closeFor k path st = (B, false) := by
+  induction st with
+  | nil => simp [closeGE] at h
+  | cons b bs ih =>
+    by_cases hge : k + 1 ≤ b.cur.indent
+    · simp only [closeGE, hge, if_true] at h
+      have h1 : ¬ b.cur.indent < k := by omega
+      have h2 : ¬ (b.cur.indent = k ∧ b.cur.path = path) := by omega
+      simp [closeFor, h1, h2, ih h]
+    · simp only [closeGE, hge, if_false] at h
+      injection h with h1 h2
+      subst h1 h2
+      have h3 : ¬ b.cur.indent < k := by omega
+      have h4 : ¬ (b.cur.indent = k ∧ b.cur.path = path) := fun e => hp e.2
+      simp only [closeFor, h3, h4, if_false]
+      exact closeFor_new (closeGE_of_below (hb.mono (Nat.le_succ k))) hb
+
+theorem needsEnd_or (a : Option (List String)) (q : List String) : needsEnd a (some q) = true ∨ a ≠ some q := by
+  cases a with
+  | none => right; simp
+  | some x =>
+    by_cases h : x = q
+    · left; simp [needsEnd, h]
+    · right; simp [h]
 
 /-- Statement of the induction for an item sequence. -/
 def ItemsOK (is : Items) : Prop :=
-  ∀ (k : Nat) (s : St) (B : List Branch) (P : List (Nat × Comp)),
+  ∀ (k : Nat) (s : St) (B : List Branch) (P : List (Nat × List Comp)),
     Below k B → BelowP k P → closeGE k s.state = B → popGE k s.parents = P →
-    (is.startsCase = true → closeGE (k + 1) s.state = B) →
+    (∀ q, is.firstPfx = some q → closeFor k (fullName P ++ nms q) s.state = (B, false)) →
     ∃ s', run s (is.render k) = .ok (s', if falseCase B then [] else is.sem (cleanName (fullName P))) ∧
       closeGE k s'.state = B ∧ popGE k s'.parents = P
 
 def ItemOK (i : Item) : Prop :=
-  ∀ (k : Nat) (s : St) (B : List Branch) (P : List (Nat × Comp)) (fe : Bool),
+  ∀ (k : Nat) (s : St) (B : List Branch) (P : List (Nat × List Comp)) (fe : Bool),
     Below k B → BelowP k P → closeGE k s.state = B → popGE k s.parents = P →
-    (i.isBlock = true → closeGE (k + 1) s.state = B) →
+    (∀ q, i.blockPfx = some q → closeFor k (fullName P ++ nms q) s.state = (B, false)) →
     ∃ s', run s (i.render k fe) = .ok (s', if falseCase B then [] else i.sem (cleanName (fullName P))) ∧
       closeGE k s'.state = B ∧ popGE k s'.parents = P ∧
-      ((fe = true ∨ i.isBlock = false) → closeGE (k + 1) s'.state = B)
+      (∀ q, (fe = true ∨ i.blockPfx ≠ some q) → closeFor k (fullName P ++ nms q) s'.state = (B, false))
 
-/-- Inside the block `blk` (written at indent `k`, current clause a `@case`), after a clause body. -/
+/-- Inside the block `blk` (written at indent `k` with parent `pfx`, current clause a `@case`),
+    after a clause body. -/
 def ChainOK (ch : Chain) : Prop :=
-  ∀ (k : Nat) (s : St) (B : List Branch) (P : List (Nat × Comp)) (blk : Branch) (fe : Bool),
+  ∀ (k : Nat) (s : St) (B : List Branch) (P : List (Nat × List Comp)) (pfx : List String) (blk : Branch)
+    (fe : Bool),
     Below k B → BelowP k P → closeGE (k + 1) s.state = blk :: B → blk.cur.indent = k →
-    blk.cur.path = fullName P → blk.cur.ctype = .case → popGE k s.parents = P →
-    ∃ s', run s (ch.render k fe) =
-        .ok (s', if falseCase B || anyTrue blk then [] else ch.sem (cleanName (fullName P))) ∧
-      closeGE k s'.state = B ∧ popGE k s'.parents = P ∧ (fe = true → closeGE (k + 1) s'.state = B)
+    blk.cur.path = fullName P ++ nms pfx → blk.cur.ctype = .case → popGE k s.parents = P →
+    ∃ s', run s (ch.render k pfx fe) =
+        .ok (s', if falseCase B || anyTrue blk then [] else ch.sem (cleanName (fullName P) ++ pfx)) ∧
+      closeGE k s'.state = B ∧ popGE k s'.parents = P ∧
+      (∀ q, (fe = true ∨ pfx ≠ q) → closeFor k (fullName P ++ nms q) s'.state = (B, false))
 
 /-- A clause body: the state right after the clause line has the block `blk` (current clause
-    at indent `k`) on top of `B` and the clause's `@n` on top of `P`. -/
-theorem clause_body {body : Items} (ih : ItemsOK body) (k e n : Nat) (s1 : St) (B : List Branch)
-    (P : List (Nat × Comp)) (blk : Branch) (_hB : Below k B) (hP : BelowP k P)
-    (h1 : s1.state = blk :: B) (h2 : s1.parents = (k, .cs n) :: P) (hi : blk.cur.indent = k) :
+    at indent `k`) on top of `B` and the clause's `pfx.@n` on top of `P`. -/
+theorem clause_body {body : Items} (ih : ItemsOK body) (k e n : Nat) (pfx : List String) (s1 : St)
+    (B : List Branch) (P : List (Nat × List Comp)) (blk : Branch) (hP : BelowP k P)
+    (h1 : s1.state = blk :: B) (h2 : s1.parents = (k, nms pfx ++ [.cs n]) :: P) (hi : blk.cur.indent = k) :
     ∃ s2, run s1 (body.render (k + 1 + e)) =
-        .ok (s2, if falseCase B || falseBranch blk then [] else body.sem (cleanName (fullName P))) ∧
+        .ok (s2, if falseCase B || falseBranch blk then [] else body.sem (cleanName (fullName P) ++ pfx)) ∧
       closeGE (k + 1) s2.state = blk :: B ∧ popGE k s2.parents = P := by
   have hb' : Below (k + 1) (blk :: B) := below_cons (by omega)
-  have hp' : BelowP (k + 1) ((k, Comp.cs n) :: P) := belowP_cons (by simp)
+  have hp' : BelowP (k + 1) ((k, nms pfx ++ [Comp.cs n]) :: P) := belowP_cons (by simp)
   have hk : k + 1 ≤ k + 1 + e := by omega
-  obtain ⟨s2, hr, hs, hpp⟩ := ih (k + 1 + e) s1 (blk :: B) ((k, .cs n) :: P) (hb'.mono hk) (hp'.mono hk)
+  obtain ⟨s2, hr, hs, hpp⟩ := ih (k + 1 + e) s1 (blk :: B) ((k, nms pfx ++ [.cs n]) :: P) (hb'.mono hk)
+    (hp'.mono hk)
     (by rw [h1]; exact closeGE_of_below (hb'.mono hk))
     (by rw [h2]; exact popGE_of_below (hp'.mono hk))
-    (fun _ => by rw [h1]; exact closeGE_of_below (hb'.mono (by omega)))
+    (fun q _ => by
+      rw [h1]
+      exact closeFor_new (closeGE_of_below (hb'.mono (by omega))) (hb'.mono hk))
   refine ⟨s2, ?_, closeGE_mono hs hk hb', ?_⟩
   · rw [hr, falseCase_cons, cleanName_fullName_cs, Bool.or_comm]
-  · have : popGE k s2.parents = popGE k ((k, Comp.cs n) :: P) := by
+  · have : popGE k s2.parents = popGE k ((k, nms pfx ++ [Comp.cs n]) :: P) := by
       rw [← hpp, popGE_popGE_le (by omega)]
     rw [this]
     simp only [popGE, Nat.le_refl, if_true]
     exact popGE_of_below hP
 
 /-- The optional `@end` at the end of a block. -/
-theorem end_line (k : Nat) (b : Bool) (s : St) (B : List Branch) (P : List (Nat × Comp)) (blk : Branch)
+theorem end_line (k : Nat) (pfx : List String) (b : Bool) (s : St) (B : List Branch)
+    (P : List (Nat × List Comp)) (blk : Branch)
     (hB : Below k B) (hP : BelowP k P) (h1 : closeGE (k + 1) s.state = blk :: B)
-    (hi : blk.cur.indent = k) (hpath : blk.cur.path = fullName P) (h2 : popGE k s.parents = P) :
-    ∃ s', run s (endLine k b) = .ok (s', []) ∧ closeGE k s'.state = B ∧ popGE k s'.parents = P ∧
-      (b = true → closeGE (k + 1) s'.state = B) := by
+    (hi : blk.cur.indent = k) (hpath : blk.cur.path = fullName P ++ nms pfx) (h2 : popGE k s.parents = P) :
+    ∃ s', run s (endLine k pfx b) = .ok (s', []) ∧ closeGE k s'.state = B ∧ popGE k s'.parents = P ∧
+      (∀ q, (b = true ∨ pfx ≠ q) → closeFor k (fullName P ++ nms q) s'.state = (B, false)) := by
   cases b with
   | false =>
-    refine ⟨s, by simp [endLine, run], ?_, h2, by simp⟩
-    rw [← closeGE_closeGE_le (Nat.le_succ k), h1]
-    simp only [closeGE, hi, Nat.le_refl, if_true]
-    exact closeGE_of_below hB
+    refine ⟨s, by simp [endLine, run], ?_, h2, fun q hq => ?_⟩
+    · rw [← closeGE_closeGE_le (Nat.le_succ k), h1]
+      simp only [closeGE, hi, Nat.le_refl, if_true]
+      exact closeGE_of_below hB
+    · have hne : pfx ≠ q := by
+        rcases hq with h | h
+        · cases h
+        · exact h
+      exact closeFor_other h1 hi (by rw [hpath]; exact path_ne hne) hB
   | true =>
-    have hs := step_end (x := "") h1 hi hpath h2
-    refine ⟨St.mk ((k, .cs (s.numCases + 1)) :: P) B (s.numCases + 1) s.numBranches,
-      by simp [endLine, run, hs], ?_, ?_, fun _ => ?_⟩
+    have hs := step_end h1 hi hpath h2
+    refine ⟨St.mk ((k, nms pfx ++ [.cs (s.numCases + 1)]) :: P) B (s.numCases + 1) s.numBranches,
+      by simp [endLine, run, hs], ?_, ?_, fun q _ => ?_⟩
     · exact closeGE_of_below hB
     · simp only [popGE, Nat.le_refl, if_true]; exact popGE_of_below hP
-    · exact closeGE_of_below (hB.mono (Nat.le_succ k))
+    · exact closeFor_new (closeGE_of_below (hB.mono (Nat.le_succ k))) hB
 
-theorem node_ok (n : String) (m : Bool) (v : Int) : ItemOK (.node n m v) := by
+/-- The property lines written below a node: the state is not touched. -/
+theorem props_run (k : Nat) (props : List (Nat × PKind)) (s : St) (B : List Branch) (hB : Below (k + 1) B)
+    (hs : s.state = B) :
+    run s (propLines k props) = .ok (s, if falseCase B then [] else props.map (fun ep => Eff.prop ep.2)) := by
+  induction props with
+  | nil => simp [propLines, run]
+  | cons ep rest ih =>
+    have hc : closeGE (k + 1 + ep.1) s.state = B := by
+      rw [hs]; exact closeGE_of_below (hB.mono (by omega))
+    have hstep := step_prop (x := []) (p := ep.2) hc
+    have hself : ({ s with state := B } : St) = s := by cases s; simp_all
+    rw [hself] at hstep
+    simp only [propLines, List.map_cons] at ih ⊢
+    rw [run_cons_ok hstep ih]
+    by_cases hf : falseCase B = true <;> simp [hf]
+
+theorem node_ok (n : String) (m : Bool) (v : Int) (props : List (Nat × PKind)) : ItemOK (.node n m v props) := by
   intro k s B P fe hB hP h1 h2 _
-  have hs := step_node (x := n) (m := m) (v := v) h1 h2
-  refine ⟨{ s with parents := (k, .nm n) :: P, state := B }, ?_, ?_, ?_, fun _ => ?_⟩
-  · simp only [Item.render, run, hs, Item.sem]
+  have hs := step_node (x := [n]) (m := m) (v := v) h1 h2
+  have hp := props_run k props { s with parents := (k, nms [n]) :: P, state := B } B
+    (hB.mono (Nat.le_succ k)) rfl
+  refine ⟨{ s with parents := (k, nms [n]) :: P, state := B }, ?_, ?_, ?_, fun q _ => ?_⟩
+  · simp only [Item.render, Item.sem]
+    rw [run_cons_ok hs hp]
     by_cases hf : falseCase B = true <;> simp [hf]
   · exact closeGE_of_below hB
   · simp only [popGE, Nat.le_refl, if_true]; exact popGE_of_below hP
-  · exact closeGE_of_below (hB.mono (Nat.le_succ k))
+  · exact closeFor_new (closeGE_of_below (hB.mono (Nat.le_succ k))) hB
+
+theorem prop_ok (p : PKind) : ItemOK (.prop p) := by
+  intro k s B P fe hB _ h1 h2 _
+  have hs := step_prop (x := []) (p := p) h1
+  refine ⟨{ s with state := B }, ?_, closeGE_of_below hB, h2, fun q _ => ?_⟩
+  · simp only [Item.render, run, hs, Item.sem]
+    by_cases hf : falseCase B = true <;> simp [hf]
+  · exact closeFor_new (closeGE_of_below (hB.mono (Nat.le_succ k))) hB
 
 theorem group_ok (n : String) (e : Nat) (body : Items) (ih : ItemsOK body) : ItemOK (.group n e body) := by
   intro k s B P fe hB hP h1 h2 _
-  have hs := step_group (x := n) h1 h2
+  have hs := step_group (x := [n]) h1 h2
   have hk : k + 1 ≤ k + 1 + e := by omega
   have hb1 : Below (k + 1) B := hB.mono (Nat.le_succ k)
-  have hp1 : BelowP (k + 1) ((k, Comp.nm n) :: P) := belowP_cons (by simp)
-  obtain ⟨s2, hr, hst, hpp⟩ := ih (k + 1 + e) { s with parents := (k, .nm n) :: P, state := B } B
-    ((k, .nm n) :: P) (hb1.mono hk) (hp1.mono hk)
+  have hp1 : BelowP (k + 1) ((k, nms [n]) :: P) := belowP_cons (by simp)
+  obtain ⟨s2, hr, hst, hpp⟩ := ih (k + 1 + e) { s with parents := (k, nms [n]) :: P, state := B } B
+    ((k, nms [n]) :: P) (hb1.mono hk) (hp1.mono hk)
     (closeGE_of_below (hb1.mono hk)) (popGE_of_below (hp1.mono hk))
-    (fun _ => closeGE_of_below (hb1.mono (by omega)))
-  refine ⟨s2, ?_, closeGE_mono hst (by omega) hB, ?_, fun _ => closeGE_mono hst hk hb1⟩
+    (fun q _ => closeFor_new (closeGE_of_below (hb1.mono (by omega))) (hb1.mono hk))
+  refine ⟨s2, ?_, closeGE_mono hst (by omega) hB, ?_, fun q _ => closeFor_new (closeGE_mono hst hk hb1) hB⟩
   · simp only [Item.render, Item.sem]
     rw [run_cons_ok hs hr, cleanName_fullName_nm]
     simp
-  · have : popGE k s2.parents = popGE k ((k, Comp.nm n) :: P) := by
+  · have : popGE k s2.parents = popGE k ((k, nms [n]) :: P) := by
       rw [← hpp, popGE_popGE_le (by omega)]
     rw [this]
     simp only [popGE, Nat.le_refl, if_true]
@@ -121,70 +197,80 @@ theorem items_nil_ok : ItemsOK .nil := by
 theorem items_cons_ok (i : Item) (rest : Items) (ihi : ItemOK i) (ihr : ItemsOK rest) :
     ItemsOK (.cons i rest) := by
   intro k s B P hB hP h1 h2 h3
-  rw [Items.startsCase_cons] at h3
-  obtain ⟨s1, hr1, hs1, hp1, hstrict⟩ := ihi k s B P rest.startsCase hB hP h1 h2 h3
-  obtain ⟨s2, hr2, hs2, hp2⟩ := ihr k s1 B P hB hP hs1 hp1 (fun h => hstrict (Or.inl h))
+  obtain ⟨s1, hr1, hs1, hp1, hpost⟩ := ihi k s B P (needsEnd i.blockPfx rest.firstPfx) hB hP h1 h2
+    (fun q hq => h3 q (by simpa [Items.firstPfx] using hq))
+  obtain ⟨s2, hr2, hs2, hp2⟩ := ihr k s1 B P hB hP hs1 hp1
+    (fun q hq => hpost q (by rw [hq]; exact needsEnd_or i.blockPfx q))
   refine ⟨s2, ?_, hs2, hp2⟩
   simp only [Items.render, Items.sem]
   rw [run_append_ok hr1 hr2]
   by_cases hf : falseCase B = true <;> simp [hf]
 
 theorem chain_fin_ok (ee : Bool) : ChainOK (.fin ee) := by
-  intro k s B P blk fe hB hP h1 hi hpath _ h2
-  obtain ⟨s', hr, hs, hp, hstrict⟩ := end_line k (ee || fe) s B P blk hB hP h1 hi hpath h2
-  refine ⟨s', ?_, hs, hp, fun h => hstrict (by simp [h])⟩
-  simp only [Chain.render, hr, Chain.sem]
-  simp
+  intro k s B P pfx blk fe hB hP h1 hi hpath _ h2
+  obtain ⟨s', hr, hs, hp, hpost⟩ := end_line k pfx (ee || fe) s B P blk hB hP h1 hi hpath h2
+  refine ⟨s', ?_, hs, hp, fun q hq => hpost q ?_⟩
+  · simp only [Chain.render, hr, Chain.sem]
+    simp
+  · rcases hq with h | h
+    · left; simp [h]
+    · right; exact h
 
 theorem chain_els_ok (e : Nat) (body : Items) (ee : Bool) (ih : ItemsOK body) : ChainOK (.els e body ee) := by
-  intro k s B P blk fe hB hP h1 hi hpath ht h2
+  intro k s B P pfx blk fe hB hP h1 hi hpath ht h2
   let blk' : Branch :=
-    { blk with cur := ⟨fullName P, k, true, .els, s.numCases + 1⟩, earlier := blk.cur :: blk.earlier }
-  let s1 : St := St.mk ((k, .cs (s.numCases + 1)) :: P) (blk' :: B) (s.numCases + 1) s.numBranches
-  have hs : step s ⟨k, "", .els⟩ = .ok (s1, []) := step_switch_else h1 hi hpath ht h2
-  obtain ⟨s2, hr2, hs2, hp2⟩ := clause_body ih k e (s.numCases + 1) s1 B P blk' hB hP rfl rfl rfl
-  obtain ⟨s3, hr3, hs3, hp3, hstrict⟩ := end_line k (ee || fe) s2 B P blk' hB hP hs2 rfl rfl hp2
-  refine ⟨s3, ?_, hs3, hp3, fun h => hstrict (by simp [h])⟩
-  simp only [Chain.render, Chain.sem]
-  rw [run_cons_ok hs (run_append_ok hr2 hr3), falseBranch_switch]
-  simp
+    { blk with cur := ⟨fullName P ++ nms pfx, k, true, .els, s.numCases + 1⟩, earlier := blk.cur :: blk.earlier }
+  let s1 : St := St.mk ((k, nms pfx ++ [.cs (s.numCases + 1)]) :: P) (blk' :: B) (s.numCases + 1) s.numBranches
+  have hs : step s ⟨k, pfx, .els⟩ = .ok (s1, []) := step_switch_else h1 hi hpath ht h2
+  obtain ⟨s2, hr2, hs2, hp2⟩ := clause_body ih k e (s.numCases + 1) pfx s1 B P blk' hP rfl rfl rfl
+  obtain ⟨s3, hr3, hs3, hp3, hpost⟩ := end_line k pfx (ee || fe) s2 B P blk' hB hP hs2 rfl rfl hp2
+  refine ⟨s3, ?_, hs3, hp3, fun q hq => hpost q ?_⟩
+  · simp only [Chain.render, Chain.sem]
+    rw [run_cons_ok hs (run_append_ok hr2 hr3), falseBranch_switch]
+    simp
+  · rcases hq with h | h
+    · left; simp [h]
+    · right; exact h
 
 theorem chain_case_ok (c : Bool) (e : Nat) (body : Items) (more : Chain) (ih : ItemsOK body)
     (ihm : ChainOK more) : ChainOK (.case c e body more) := by
-  intro k s B P blk fe hB hP h1 hi hpath ht h2
+  intro k s B P pfx blk fe hB hP h1 hi hpath ht h2
   let blk' : Branch :=
-    { blk with cur := ⟨fullName P, k, c, .case, s.numCases + 1⟩, earlier := blk.cur :: blk.earlier }
-  let s1 : St := St.mk ((k, .cs (s.numCases + 1)) :: P) (blk' :: B) (s.numCases + 1) s.numBranches
-  have hs : step s ⟨k, "", .case c⟩ = .ok (s1, []) := step_switch_case h1 hi hpath ht h2
-  obtain ⟨s2, hr2, hs2, hp2⟩ := clause_body ih k e (s.numCases + 1) s1 B P blk' hB hP rfl rfl rfl
-  obtain ⟨s3, hr3, hs3, hp3, hstrict⟩ := ihm k s2 B P blk' fe hB hP hs2 rfl rfl rfl hp2
-  refine ⟨s3, ?_, hs3, hp3, hstrict⟩
+    { blk with cur := ⟨fullName P ++ nms pfx, k, c && !falseCase B, .case, s.numCases + 1⟩,
+               earlier := blk.cur :: blk.earlier }
+  let s1 : St := St.mk ((k, nms pfx ++ [.cs (s.numCases + 1)]) :: P) (blk' :: B) (s.numCases + 1) s.numBranches
+  have hs : step s ⟨k, pfx, .case c⟩ = .ok (s1, []) := step_switch_case h1 hB hi hpath ht h2
+  obtain ⟨s2, hr2, hs2, hp2⟩ := clause_body ih k e (s.numCases + 1) pfx s1 B P blk' hP rfl rfl rfl
+  obtain ⟨s3, hr3, hs3, hp3, hpost⟩ := ihm k s2 B P pfx blk' fe hB hP hs2 rfl rfl rfl hp2
+  refine ⟨s3, ?_, hs3, hp3, hpost⟩
   simp only [Chain.render, Chain.sem]
   rw [run_cons_ok hs (run_append_ok hr2 hr3), falseBranch_switch, anyTrue_switch]
   cases c <;> cases falseCase B <;> cases anyTrue blk <;> simp
 
-theorem block_ok (c : Bool) (e : Nat) (body : Items) (more : Chain) (ih : ItemsOK body)
-    (ihm : ChainOK more) : ItemOK (.block c e body more) := by
-  intro k s B P fe hB hP _ h2 h3
-  have h1 := h3 rfl
-  let blk' : Branch := ⟨s.numBranches + 1, ⟨fullName P, k, c, .case, s.numCases + 1⟩, []⟩
-  let s1 : St := St.mk ((k, .cs (s.numCases + 1)) :: P) (blk' :: B) (s.numCases + 1) (s.numBranches + 1)
-  have hs : step s ⟨k, "", .case c⟩ = .ok (s1, []) := step_open h1 hB h2
-  obtain ⟨s2, hr2, hs2, hp2⟩ := clause_body ih k e (s.numCases + 1) s1 B P blk' hB hP rfl rfl rfl
-  obtain ⟨s3, hr3, hs3, hp3, hstrict⟩ := ihm k s2 B P blk' fe hB hP hs2 rfl rfl rfl hp2
-  refine ⟨s3, ?_, hs3, hp3, fun h => ?_⟩
+theorem block_ok (pfx : List String) (c : Bool) (e : Nat) (body : Items) (more : Chain) (ih : ItemsOK body)
+    (ihm : ChainOK more) : ItemOK (.block pfx c e body more) := by
+  intro k s B P fe hB hP h0 h2 h3
+  have h1 := h3 pfx rfl
+  let blk' : Branch := ⟨s.numBranches + 1, ⟨fullName P ++ nms pfx, k, c && !falseCase B, .case, s.numCases + 1⟩, []⟩
+  let s1 : St := St.mk ((k, nms pfx ++ [.cs (s.numCases + 1)]) :: P) (blk' :: B) (s.numCases + 1) (s.numBranches + 1)
+  have hs : step s ⟨k, pfx, .case c⟩ = .ok (s1, []) := step_open h1 h0 h2
+  obtain ⟨s2, hr2, hs2, hp2⟩ := clause_body ih k e (s.numCases + 1) pfx s1 B P blk' hP rfl rfl rfl
+  obtain ⟨s3, hr3, hs3, hp3, hpost⟩ := ihm k s2 B P pfx blk' fe hB hP hs2 rfl rfl rfl hp2
+  refine ⟨s3, ?_, hs3, hp3, fun q hq => hpost q ?_⟩
   · simp only [Item.render, Item.sem]
     rw [run_cons_ok hs (run_append_ok hr2 hr3), falseBranch_open]
-    cases c <;> cases falseCase B <;> simp [anyTrue, blk']
-  · cases h with
-    | inl h => exact hstrict h
-    | inr h => simp [Item.isBlock] at h
+    simp only [anyTrue, blk']
+    cases c <;> by_cases hfb : falseCase B = true <;> simp [hfb]
+  · rcases hq with h | h
+    · exact Or.inl h
+    · right; intro e; exact h (by simp [Item.blockPfx, e])
 
 mutual
   theorem item_ok : (i : Item) → ItemOK i
-    | .node n m v => node_ok n m v
+    | .node n m v props => node_ok n m v props
+    | .prop p => prop_ok p
     | .group n e body => group_ok n e body (items_ok body)
-    | .block c e body more => block_ok c e body more (items_ok body) (chain_ok more)
+    | .block pfx c e body more => block_ok pfx c e body more (items_ok body) (chain_ok more)
   theorem items_ok : (is : Items) → ItemsOK is
     | .nil => items_nil_ok
     | .cons i rest => items_cons_ok i rest (item_ok i) (items_ok rest)
@@ -207,16 +293,27 @@ theorem selectedOnly_append (a b : List (List Bool × Eff)) :
     selectedOnly (a ++ b) = selectedOnly a ++ selectedOnly b := by
   simp [selectedOnly]
 
+theorem selectedOnly_const (sel : List Bool) (l : List Eff) :
+    selectedOnly (l.map (fun e => (sel, e))) = if sel.all id then l else [] := by
+  induction l with
+  | nil => simp [selectedOnly]
+  | cons a t ih =>
+    simp only [selectedOnly, List.map_cons, List.filter_cons] at ih ⊢
+    cases h : sel.all id <;> simp_all
+
 mutual
   theorem Item.occ_sem : (i : Item) → (pre : List String) → (sel : List Bool) →
       selectedOnly (i.occ pre sel) = if sel.all id then i.sem pre else []
-    | .node n m v, pre, sel => by
+    | .node n m v props, pre, sel => by
+      have := selectedOnly_const sel (Eff.node (pre ++ [n]) m v :: props.map (fun ep => Eff.prop ep.2))
+      simpa [Item.occ, Item.sem, Function.comp_def] using this
+    | .prop p, pre, sel => by
       cases h : sel.all id <;> simp [Item.occ, Item.sem, selectedOnly, h]
     | .group n e body, pre, sel => by
       simp only [Item.occ, Item.sem]; exact Items.occ_sem body _ sel
-    | .block c e body more, pre, sel => by
+    | .block pfx c e body more, pre, sel => by
       simp only [Item.occ, Item.sem, selectedOnly_append]
-      rw [Items.occ_sem body pre (c :: sel), Chain.occ_sem more pre sel c]
+      rw [Items.occ_sem body _ (c :: sel), Chain.occ_sem more _ sel c]
       cases c <;> cases h : sel.all id <;> simp [h]
   theorem Items.occ_sem : (is : Items) → (pre : List String) → (sel : List Bool) →
       selectedOnly (is.occ pre sel) = if sel.all id then is.sem pre else []
